@@ -463,7 +463,7 @@ var exhausted sync.Map
 
 // exhaustive round-trips every block and momentum of a long-lived world once per process.
 func exhaustive(c *pbt.C, v *View, st *rtStats) {
-	if _, done := exhausted.LoadOrStore(v.Name, true); done {
+	if _, done := exhausted.Load(v.Name); done {
 		return
 	}
 	led := v.Apis.Ledger
@@ -490,6 +490,7 @@ func exhaustive(c *pbt.C, v *View, st *rtStats) {
 			}
 		}
 	}
+	exhausted.Store(v.Name, true) // only after a complete pass: a failure repeats in every case
 	c.Class("exhaustive-pass-over-" + v.Name)
 }
 
